@@ -5,10 +5,24 @@ package replication
 
 import (
 	"fmt"
+	"os"
 	"testing"
 
 	"github.com/WuKongIM/WuKongIM/pkg/zzverif/ev"
+	"github.com/WuKongIM/WuKongIM/pkg/zzverif/mc"
 )
+
+func vw2Run(r *ev.R, name string, o vwOpts, st *vwStats, pool *vwCrashPool, xs *vw2Counters, depth, devs int, note string) mc.Result {
+	depth, devs = vwDebugBounds(depth, devs)
+	o.noPrune = os.Getenv("VERIF_DEBUG_NOPRUNE") == "1"
+	o.backend = func() *vwBackendLease { return nil } // replaced per instance by newVW2; marks the store backend in the bounds
+	b := vwBounds(o)
+	b["power_loss_images"] = "after every recovery page reported durable by Replace; after every event, for every node whose log changed"
+	return mc.Run(r, mc.System{
+		Name: name, New: func() mc.Instance { return newVW2(o, st, pool, xs, true) },
+		MaxDepth: depth, MaxDeviations: devs, Bounds: b, Note: note,
+	})
+}
 
 func TestVerifC02(t *testing.T) {
 	r := ev.Start(t, "C02")
@@ -25,20 +39,19 @@ func TestVerifC02(t *testing.T) {
 	res.States += res2.States
 	// MessageDB-backed boxes: every node's durable log is a real channelstore.MessageDBFactory
 	// store (pkg/db/message exact-base append incl. its sequenced fast path for
-	// ServerAllocatedMessageIDs, ReplaceRecoverySuffix) on an in-memory vfs.
-	pool, err := newVWMDBPool()
-	if err == nil {
-		err = pool.selfTest()
-	}
-	if err != nil {
+	// ServerAllocatedMessageIDs, ReplaceRecoverySuffix) on its own crash-capturing volume;
+	// vw2 (c02_crash_test.go) reopens a power-loss image after every recovery page that was
+	// reported durable and at the end of every event that changed a log.
+	pool := newVWCrashPool()
+	xs := &vw2Counters{}
+	if err := pool.selfTest(); err != nil {
 		r.HarnessError("MessageDB-backed world unavailable: %v", err)
 	} else {
 		om := o
-		om.backend = pool.lease
 		om.evOrder = false
 		om.cmds = 3
-		mnote := note + "; every node's durable log is a real MessageDB (pkg/db/message on Pebble, in-memory vfs) channel store; c1, c2 are proposed with ServerAllocatedMessageIDs, c3 without"
-		mdb := vwRun(r, "replication-world/C02/messagedb", om, st, 3, ev.Pick(r, 0, 1), mnote)
+		mnote := note + "; every node's durable log is a real MessageDB (pkg/db/message on Pebble) channel store on a private crash-capturing in-memory volume; c1, c2 are proposed with ServerAllocatedMessageIDs, c3 without; a power-loss image (only fsynced bytes) of the node's volume is reopened after every recovery page reported durable and after every event that changed a log, and must not be behind the frontier the live store reported"
+		mdb := vw2Run(r, "replication-world/C02/messagedb", om, st, pool, xs, 3, ev.Pick(r, 0, 1), mnote)
 		// seeded box: the old leader (node 1) is cut off holding an unreplicated
 		// one-entry tail above the acknowledged prefix that nodes 2 and 3 hold.
 		os2 := om
@@ -47,15 +60,38 @@ func TestVerifC02(t *testing.T) {
 		if !r.Thorough() { // quick: commits, next-term / same installs, trailing delivery, up
 			os2.maxCrashes, os2.maxInstalls, os2.evRepair, os2.evCrashReplace = 0, 2, false, false
 		}
-		seeded := vwRun(r, "replication-world/C02/messagedb-deposed-tail", os2, st, 4, ev.Pick(r, 0, 1),
+		seeded := vw2Run(r, "replication-world/C02/messagedb-deposed-tail", os2, st, pool, xs, 4, ev.Pick(r, 0, 1),
 			mnote+"; initial state = after "+fmt.Sprint(os2.prefix)+" (deposed leader cut off with an unreplicated tail of the length of a barrier)")
-		r.Guard("messagedb-world-states", mdb.States >= 50 && seeded.States >= 50, "%d + %d states explored over MessageDB-backed stores", mdb.States, seeded.States)
+		// seeded box: node 3 missed three proposals (c1, c2 = two records, c3) that nodes 1
+		// and 2 hold, so that an Install at node 3 repairs its EMPTY log in three recovery
+		// pages, none of which truncates anything.
+		os3 := om
+		os3.prefix = []string{"down:3", "commit:1:c1", "commit:1:c2", "commit:1:c3", "up:3"}
+		os3.maxOutages = 1
+		if !r.Thorough() {
+			os3.maxCrashes, os3.maxInstalls, os3.evRepair, os3.evTrailing = 0, 1, false, false
+		}
+		multi := vw2Run(r, "replication-world/C02/messagedb-multi-page-repair", os3, st, pool, xs, ev.Pick(r, 2, 3), ev.Pick(r, 1, 1),
+			mnote+"; initial state = after "+fmt.Sprint(os3.prefix)+" (node 3 lags by three proposals = three recovery pages)")
+		r.Guard("messagedb-world-states", mdb.States >= 50 && seeded.States >= 50 && multi.States >= 10, "%d + %d + %d states explored over MessageDB-backed stores", mdb.States, seeded.States, multi.States)
 		r.Guard("messagedb-sequenced-fast-path", st.saAtFrontier.Load() >= 10 && st.saAtFrontierDivergentTail.Load() >= 1,
 			"%d ServerAllocatedMessageIDs proposals reached a follower exactly at its LEO, %d of them a follower whose equal-length tail is not the proposal's predecessor",
 			st.saAtFrontier.Load(), st.saAtFrontierDivergentTail.Load())
+		if r.Replay() == nil {
+			r.Guard("power-loss-images-after-recovery-pages", xs.imagesAfterPage.Load() >= 10 && xs.imagesAfterNonTruncatingPage.Load() >= 5 && xs.imagesAfterLaterPage.Load() >= 2,
+				"%d power-loss images reopened right after a recovery page reported durable (%d after a page that truncated nothing, %d after the second or a later page of one Install)",
+				xs.imagesAfterPage.Load(), xs.imagesAfterNonTruncatingPage.Load(), xs.imagesAfterLaterPage.Load())
+			r.Guard("power-loss-images-at-event-end", xs.imagesAtEventEnd.Load() >= 100, "%d power-loss images reopened after an event changed a replica log", xs.imagesAtEventEnd.Load())
+		}
 	}
-	if pool != nil {
-		pool.close()
+	pool.close()
+	for k, v := range map[string]int64{
+		"power_loss_images_reopened": xs.images.Load(), "power_loss_images_after_recovery_page": xs.imagesAfterPage.Load(),
+		"power_loss_images_after_non_truncating_recovery_page": xs.imagesAfterNonTruncatingPage.Load(),
+		"power_loss_images_after_second_or_later_page_of_one_install": xs.imagesAfterLaterPage.Load(),
+		"power_loss_images_at_event_end": xs.imagesAtEventEnd.Load(), "power_loss_images_not_behind_reported_frontier": xs.imagesBehindNothing.Load(),
+	} {
+		r.Count(k+"_incl_replays", v)
 	}
 	vwAssumptions(r)
 	vwCounters(r, st)
